@@ -42,6 +42,12 @@ Round 4: owner propagation written as one flat loop `for m in [self] + self.__ge
 map to itself and returning the roots of the copy (its return expression is judged in place of `.roots = [...]`); attribute
 copy loops fed by a (name, value) pair stream `((k, V(k)) for k in X.__dict__ if ..)`; a copy loop that stores
 copy.copy / copy.deepcopy of the VALUE is REFUTED (the copy must carry the same attribute values; C10-r43).
+Round 5: copy loops over `{k: V for k in X.__dict__[.items()] if ..}.items()`; a filter that only leaves out names which are
+properties of the class (never keys of __dict__) is neutral, any other name exclusion is REFUTED (C10-r53: harmless on Task,
+wrong on WBS); `if <no roots>: return WBS()` in __clone is understood as an early exit: REFUTED when the returned WBS did
+not go through the attribute copy loop (C10-r51), accepted when it did, UNDECIDED when the guard is not an emptiness test of
+the roots. Parent assignment guarded by the truth value of an id is REFUTED (ids are opaque; C06-r32); a relation store
+that keeps only the part of the source list outside the selection is REFUTED (C02-r31).
 
 Not decided: id collisions between an outside task and a member (the map is keyed by id); mutable attribute values
 shared by reference; overlapping root selections in subtree(); the numeric/behavioural outcome of the setters (C01,
